@@ -427,7 +427,7 @@ Proof.
   apply (G l []).
 Qed.
 
-Lemma sort_tasks_KE rule x y l : pert_free rule -> KE x y -> sort_tasks c rule x l = sort_tasks c rule y l.
+Lemma sort_tasks_KE k rule x y l : pert_free rule -> KEg k x y -> sort_tasks c rule x l = sort_tasks c rule y l.
 Proof.
   intros Hr H. unfold sort_tasks.
   destruct Hr as [-> | [-> | [-> | [-> | [-> | ->]]]]]; try reflexivity.
@@ -437,20 +437,33 @@ Proof.
   - unfold sort_by. rewrite !stable_sort_always; [reflexivity| |]; intros a b; cbn; unfold Qleb; apply Qle_bool_iff; apply Qle_refl.
 Qed.
 
-Theorem allocate_KE o x y : pert_free (o_rule o) -> KE x y -> KE (allocate c o x) (allocate c o y).
+(* the two states order every list of tasks the same way *)
+Definition SortAgree (rule : Z) (x y : pstate) : Prop :=
+  forall l, (forall t, In t l -> t < nT c) -> sort_tasks c rule x l = sort_tasks c rule y l.
+
+Lemma SortAgree_pert_free k rule x y : pert_free rule -> KEg k x y -> SortAgree rule x y.
+Proof. intros Hr H l _. apply (sort_tasks_KE k); assumption. Qed.
+
+Lemma sort_tasks_absence_update rule w s l : sort_tasks c rule (absence_update c w s) l = sort_tasks c rule s l.
+Proof. unfold sort_tasks. apply sort_by_ext. intros t. unfold task_key, absence_update. destruct w; reflexivity. Qed.
+
+Theorem allocate_KE_gen o x y : SortAgree (o_rule o) x y -> KE x y -> KE (allocate c o x) (allocate c o y).
 Proof.
   intros Hr H. unfold allocate.
   rewrite (filter_ext' (fun t => is_ready (st (td x t)) || is_working (st (td x t))) (fun t => is_ready (st (td y t)) || is_working (st (td y t))) (tasks c))
     by (intros t; rewrite (KE_st _ x y t H); reflexivity).
   rewrite (filter_ext' (fun w => rstate_eqb (rst (wd x w)) RFree) (fun w => rstate_eqb (rst (wd y w)) RFree) (all_workers c))
     by (intros w; rewrite (KE_wd x y w H); reflexivity).
-  rewrite (sort_tasks_KE _ x y _ Hr H).
+  rewrite (Hr _) by (intros t Ht; apply filter_In in Ht; destruct Ht as [Ht _]; apply in_seq in Ht; lia).
   match goal with |- KE (fst (fst (fold_left _ ?l (x, ?fr, ?mv)))) _ => generalize l fr mv end.
-  intros l. revert x y H. induction l as [|t l IH]; intros x y H fr mv; cbn [fold_left]; [exact H|].
+  clear Hr. intros l. revert x y H. induction l as [|t l IH]; intros x y H fr mv; cbn [fold_left]; [exact H|].
   destruct (alloc_task_KE t x y fr mv H) as (A1 & A2 & A3).
   destruct (alloc_task c (x, fr, mv) t) as [[x1 f1] m1]. destruct (alloc_task c (y, fr, mv) t) as [[y1 f1'] m1']. cbn [fst snd] in *. subst f1' m1'.
   apply IH. exact A1.
 Qed.
+
+Theorem allocate_KE o x y : pert_free (o_rule o) -> KE x y -> KE (allocate c o x) (allocate c o y).
+Proof. intros Hr H. apply allocate_KE_gen; [apply (SortAgree_pert_free true); assumption|exact H]. Qed.
 
 
 (* -------------------------------------------- check_working, perform, record *)
@@ -553,14 +566,17 @@ Proof. reflexivity. Qed.
 Lemma step_record_flag o s : step_record c o s = record c (negb (mem (time s) (o_abs o))) s.
 Proof. reflexivity. Qed.
 
-Lemma sa_flag_KE o w x y : pert_free (o_rule o) -> KA x y -> KE (sa_flag o w x) (sa_flag o w y).
+Lemma sa_flag_KE_gen o w x y : SortAgree (o_rule o) x y -> KA x y -> KE (sa_flag o w x) (sa_flag o w y).
 Proof.
   intros Hr H. unfold sa_flag. pose proof (absence_update_KE w x y H) as H1.
   assert (H2 : KE (if w then allocate c o (absence_update c w x) else absence_update c w x)
-                  (if w then allocate c o (absence_update c w y) else absence_update c w y))
-    by (destruct w; [apply allocate_KE; assumption|exact H1]).
+                  (if w then allocate c o (absence_update c w y) else absence_update c w y)).
+  { destruct w; [|exact H1]. apply allocate_KE_gen; [|exact H1].
+    intros l Hl. rewrite !sort_tasks_absence_update. apply Hr. exact Hl. }
   destruct (w || o_auto_abs o); [|exact H2]. apply pcs_KE. apply check_working_KE. exact H2.
 Qed.
+Lemma sa_flag_KE o w x y : pert_free (o_rule o) -> KA x y -> KE (sa_flag o w x) (sa_flag o w y).
+Proof. intros Hr H. apply sa_flag_KE_gen; [apply (SortAgree_pert_free false); assumption|exact H]. Qed.
 Lemma sp_flag_KE o w x y : KE x y -> KE (sp_flag o w x) (sp_flag o w y).
 Proof.
   intros H. unfold sp_flag.
